@@ -56,3 +56,55 @@ Example read_stream_example :
   exists bs, write_stream 1000 [ex_msg; set_payload ex_msg [1]; ex_msg] = Some bs /\
              read_stream 1000 bs = [ex_msg; set_payload ex_msg [1]; ex_msg].
 Proof. eexists. split; [reflexivity|]. vm_compute. reflexivity. Qed.
+
+(** * Refused writes *)
+
+Lemma write_msg_emit_spec : forall max m,
+  write_msg max m = match write_msg_emit max m with (None, b) => Some b | (Some _, _) => None end.
+Proof.
+  intros max m. unfold write_msg, write_msg_emit.
+  destruct (negb (m_length m =? blen (m_payload m))); [reflexivity|].
+  destruct (max <? m_length m); reflexivity.
+Qed.
+
+(** A refused write puts nothing on the wire, neither at once nor at a later flush. *)
+Theorem refused_write_emits_nothing : forall max m e b,
+  write_msg_emit max m = (Some e, b) -> b = [].
+Proof.
+  intros max m e b W. unfold write_msg_emit in W.
+  destruct (negb (m_length m =? blen (m_payload m))); [inversion W; reflexivity|].
+  destruct (max <? m_length m); inversion W. reflexivity.
+Qed.
+
+Lemma write_stream_mixed_filter : forall max ms,
+  write_stream max (filter (accepted max) ms) = Some (write_stream_mixed max ms).
+Proof.
+  intros max ms. induction ms as [|m r IH]; [reflexivity|].
+  unfold write_stream_mixed in *. cbn [flat_map filter]. unfold accepted at 1.
+  destruct (write_msg_emit max m) as [[e|] b] eqn:E; cbn [fst snd].
+  - rewrite (refused_write_emits_nothing _ _ _ _ E). cbn [app]. exact IH.
+  - cbn [write_stream]. rewrite write_msg_emit_spec, E, IH. reflexivity.
+Qed.
+
+(** One long-lived writer, refused writes interleaved with accepted ones: the wire is the
+    concatenation of the frames of the accepted messages only, and one reader gets exactly the
+    accepted messages, in order, then a clean end. *)
+Theorem read_stream_mixed_writes : forall max ms,
+  (forall m, In m ms -> accepted max m = true -> msg_wf max m) ->
+  read_stream max (write_stream_mixed max ms) = filter (accepted max) ms /\
+  read_stream_end max (write_stream_mixed max ms) = RErrHeader.
+Proof.
+  intros max ms H.
+  assert (F : Forall (msg_wf max) (filter (accepted max) ms)).
+  { apply Forall_forall. intros m Hm. apply filter_In in Hm as (Hin & Ha). apply H; assumption. }
+  destruct (read_stream_write_stream max _ F) as (bs & W & R & E).
+  rewrite write_stream_mixed_filter in W. injection W as <-. auto.
+Qed.
+
+Example mixed_example :
+  let big := set_payload ex_msg (repeat 7 1001) in
+  let bad := mk_msg 1 9 0 (repeat 1 16) (repeat 0 16) [1;2] in
+  read_stream 1000 (write_stream_mixed 1000 [ex_msg; big; bad; set_payload ex_msg [1]])
+  = [ex_msg; set_payload ex_msg [1]] /\
+  fst (write_msg_emit 1000 big) = Some WTooBig /\ fst (write_msg_emit 1000 bad) = Some WInvalidSize.
+Proof. vm_compute. repeat split; reflexivity. Qed.
